@@ -28,7 +28,8 @@ Guard(a, b) == CASE Body = "unguarded" -> TRUE
 EagerRecur == Body \in {"recurfirst", "deferrecur"}
 (* "twice" keeps a flag in the iterator's own scope (assigned by the body, not given by recur): every value is visited twice, *)
 (* the first visit only sets the flag; "nested" builds another iterator inside its body on every next and asks it for 1, 2   *)
-Yield(a, b) == IF Body = "local" THEN 2 * a ELSE IF Body = "nested" THEN a * 100 + 12 ELSE a
+NilVal == -999          \* stands for a yielded nil (body "yieldsnil" yields nil at argument 1)
+Yield(a, b) == IF Body = "local" THEN 2 * a ELSE IF Body = "nested" THEN a * 100 + 12 ELSE IF Body = "yieldsnil" /\ a = 1 THEN NilVal ELSE a
 Recur(a, b) == CASE Body = "fib"  -> <<b, a + b>>
                  [] Body = "step" -> <<a + b, b>>
                  [] Body = "twice" -> IF b = 1 THEN <<a + 1, 0>> ELSE <<a, 1>>
@@ -62,10 +63,10 @@ Next_(v) == /\ Defined(v)
             /\ UNCHANGED <<x, y>>
 WalkA(v)   == Finite /\ Defined(v) /\ UNCHANGED <<its, x, y>>
               /\ IF WalkRaises(its[Var(v)]) THEN Log("A", v, <<"err">>) ELSE Log("A", v, <<"list", Rest(its[Var(v)])>>)
-WalkList(v) == Finite /\ Defined(v) /\ UNCHANGED <<its, x, y>>
+WalkList(v) == Finite /\ Body # "yieldsnil" /\ Defined(v) /\ UNCHANGED <<its, x, y>>
               /\ IF WalkRaises(its[Var(v)]) THEN Log("list", v, <<"err">>)
                  ELSE Log("list", v, <<"list", [k \in 1..Len(Rest(its[Var(v)])) |-> 10 * Rest(its[Var(v)])[k]]>>)
-WalkRed(v) == Finite /\ Defined(v) /\ UNCHANGED <<its, x, y>>
+WalkRed(v) == Finite /\ Body # "yieldsnil" /\ Defined(v) /\ UNCHANGED <<its, x, y>>
               /\ IF WalkRaises(its[Var(v)]) THEN Log("reduce", v, <<"err">>) ELSE Log("reduce", v, <<"val", 100 + Sum(Rest(its[Var(v)]))>>)
 NewY(n)    == its' = Append(its, Start(n)) /\ y' = Len(its) + 1 /\ Log("new", "y", <<"n", n>>) /\ UNCHANGED x
 NewFromX   == its' = Append(its, Start(1)) /\ y' = Len(its) + 1 /\ Log("newfrom", "y", <<"n", 1>>) /\ UNCHANGED x   \* y := x.new(1)
